@@ -1,9 +1,11 @@
 """C05 - hard time limit: job fails, its worker is really gone, pool stays usable."""
+from engines import realparts as rp
 from engines import simgen as g
 from engines.simprop import make_execute
 
 LEVEL = 'exploration'
-RULE = ('sim: E1 histories, pool sizes 1-4, pool-level and per-job hard/soft limits '
+RULE = ('real: limit 1 s (pool-level or per job), tasks that finish in time / sleep 30 s / swallow BaseException for 6 s (KILL path), a map sharing the pool, then 3 more jobs; pool sizes 1-3. ' 
+        'sim: E1 histories, pool sizes 1-4, pool-level and per-job hard/soft limits '
         'from {None,1,2,3,5,10,20}, clock advances around the limits, scans where '
         'the victim honours TERM (exit -15/15) or lingers (KILL path), workers that '
         'are / are not process-group leaders, map and imap jobs sharing the pool, '
@@ -13,7 +15,8 @@ ASSUMPTIONS = [
     'limits run from the ACK\'s own timestamp and only once the ACK was delivered',
     'KILL cannot be ignored: the simulated process is gone the moment KILL is sent',
 ]
-SHARDS = {'quick': 4, 'thorough': 16}
+SHARDS = {'quick': 8, 'thorough': 16}
+WALL_LIMIT = {'quick': 1500, 'thorough': 6 * 3600}
 
 
 def sim_cases():
@@ -33,9 +36,11 @@ def _nontrivial(labels, sim):
 
 
 execute_sim = make_execute({'c05'}, _nontrivial, prop='C05')
-PARTS = {'sim': execute_sim}
-EXPLORE = {'sim': (sim_cases(), execute_sim)}
+PARTS = {'sim': execute_sim, 'real': rp.execute_c05}
+EXPLORE = {'sim': (sim_cases(), execute_sim), 'real': (rp.c05_cases(), rp.execute_c05)}
 
 
 def run(ctx):
-    ctx.explore('sim', sim_cases(), execute_sim, n=ctx.pick(500, 25000))
+    ctx.explore('sim', sim_cases(), execute_sim, n=ctx.pick(250, 25000))
+    ctx.explore('real', rp.c05_cases(), rp.execute_c05, n=ctx.pick(2, 30),
+                shrink_budget=6)
